@@ -13,6 +13,8 @@ pub mod lsp_ext;
 pub mod server;
 mod traverse;
 pub mod utils;
+#[cfg(fuellabs_sway_verif)]
+pub mod verif;
 
 use lsp_types::{
     CodeActionProviderCapability, CodeLensOptions, CompletionOptions, ExecuteCommandOptions,
